@@ -107,6 +107,10 @@ def checkRs (relaxed : Bool) (cfg : RsCfg) (sc : Nat → Call) (evs : List IEv) 
   -- clock reading of the pause test = end of the detector phase
   let T? : Option Nat := dets.getLast?.map fun e => iNow e + (sc (iInst e)).adv
   let fireTime? : Option Nat := firedG.bind fun g => (dets.filter fun e => g.dets.contains (iInst e)).getLast?.map fun e => iNow e + (sc (iInst e)).adv
+  -- C05: inside the post-action pause the ruleset's preruns (detectors' and actions') and detectors keep executing
+  let inPause := A.pauseUntil > 0 && (match T? with | some t => t < A.pauseUntil | none => true)
+  if inPause && (pres.map iInst != detInsts ++ cfg.actions || dets.map iInst != detInsts) then
+    v := v ++ ["C05.preruns_and_detectors_during_pause"]
   -- C05, stated directly: no action before the deadline
   for e in acts do
     if iNow e < A.pauseUntil then v := v ++ ["C05.no_action_during_pause"]
